@@ -34,7 +34,7 @@ omit [DecidableEq N] in
     table or empty when there is none. -/
 theorem load_ok_iff (f : File N) (T : Table N) :
     load f = .ok T ↔ f.openOk = true ∧ f.elfOk = true ∧ ∃ ts es, f.text = some ts ∧ f.pcln = some (some es) ∧
-      T.funcs = es.map (fun e => (e.1, ts + e.2)) ∧ T.syms = f.symtab.getD [] := by
+      T.funcs = es.map (fun e => (e.1, ts + e.2)) ∧ T.syms = addrSyms (f.symtab.getD []) := by
   cases T with
   | mk tf tsy =>
   unfold load
@@ -48,7 +48,7 @@ theorem load_ok_iff (f : File N) (T : Table N) :
     | none => simp
     | some es =>
       cases f.symtab with
-      | none => simp; intro _; exact eq_comm
+      | none => simp [addrSyms]; intro _; exact eq_comm
       | some ss => simp; constructor <;> (rintro ⟨h1, h2⟩; simp [h1, h2])
 
 omit [DecidableEq N] in
@@ -102,7 +102,7 @@ theorem stripped_vars_error (env : Env N) (T : Table N) (h : load env.file = .ok
   have : T.syms = [] := by
     have := ((load_ok_iff _ _).1 h).2
     obtain ⟨_, _, _, _, _, h5⟩ := this
-    simp [h5, hs]
+    simp [h5, hs, addrSyms]
   simp [spec, varOf, varIn, h, this, lookup, resOf]
 
 /-! ## the slide -/
@@ -283,7 +283,7 @@ section Examples
 def exFile : File String :=
   { elfOk := true, text := some 0x401000#64,
     pcln := some (some [("p.f", 0x0#64), ("u.FindFuncByName", 0x40#64), ("p.g", 0x80#64), ("p.f", 0xc0#64)]),
-    symtab := some [("u.stubVar", 0x500000#64), ("p.v", 0x500008#64)] }
+    symtab := some [("u.stubVar", 0x500000#64, true), ("p.c", 0x0#64, false), ("p.v", 0x500008#64, true), ("p.tls", 0x10#64, false)] }
 
 /-- loaded with text bias 0x100 (as `-linkmode=external` does) and data bias 0xffff…f000 (wraps) -/
 def exEnv : Env String :=
